@@ -386,6 +386,97 @@ def _py(hist):
             "# identity of the k-th freed tuple that still has a live registration\n# " + repr([_ev_json(e) for e in hist]))
 
 
+def unit_catalogue(unit):
+    """E part: after EVERY operation of the run-time derivation catalogue (mc/purity.py: operators with every second operand in both
+    orders, every public method / property, indexing, joins, aggregate, window, sort, stacking, fillna / cast with promoting
+    arguments ...) the result is kept alive; then every live vector (operand, relatives, result columns) and a batch of brand-new
+    vectors of the lengths just freed are written, under CPython-like identity recycling.  A refusal is justified only if another
+    LIVE vector object really holds the very same storage tuple; self-assignments (v[:] = v, m[m] = False) involve no second owner."""
+    from serif import Vector, Table
+    from serif.alias_tracker import AliasError
+    from mc import purity
+    _, kind, form, ykind = unit
+    core.reset_globals("recycle")
+    agg = Agg()
+
+    def live_vectors(objs):
+        out = []
+        for o in objs:
+            if purity.is_row(o) or not purity.is_vec(o):
+                continue
+            if is_table(o):
+                out += [c for c in o._underlying if purity.is_vec(c) and not is_table(c)]
+            else:
+                out.append(o)
+        return out
+
+    def judge_write(site, case, target, others):
+        if not len(target._underlying):
+            return
+        agg.evals += 1; agg.transitions += 1; agg.compared += 1; agg.nontrivial += 1
+        try:
+            target[0] = target._underlying[0]
+        except AliasError:
+            shared = any(o is not target and o._underlying is target._underlying for o in others)
+            if not shared:
+                agg.violation(V(site, "spurious-AliasError", case, "written", "AliasError"))
+                return False
+            agg.outcomes["justified-refusal"] += 1
+            return True
+        except Exception:
+            agg.skipped["write-refused-for-another-reason"] += 1
+            return True
+        agg.outcomes["write-ok"] += 1
+        return True
+
+    extra = [("x.fillna(promoting)", lambda sc: sc.x.fillna(2.5)), ("x.fillna(complex)", lambda sc: sc.x.fillna(1j)), ("x.cast(float)", lambda sc: sc.x.cast(float)),
+             ("x[:] = x", lambda sc: sc.x.__setitem__(slice(None), sc.x)), ("x[::-1] = x", lambda sc: sc.x.__setitem__(slice(None, None, -1), sc.x)),
+             ("x[x] = False", lambda sc: sc.x.__setitem__(sc.x, False)), ("x[[0, 1]] = x[[1, 0]]", lambda sc: sc.x.__setitem__([0, 1], sc.x[[1, 0]])),
+             ("x[0:2] = x[0:2]", lambda sc: sc.x.__setitem__(slice(0, 2), sc.x[0:2])), ("x[mask] = x", lambda sc: sc.x.__setitem__([True] * len(sc.x), sc.x))]
+    for label, fn, live in list(purity.all_derivations(kind, form, ykind)) + ([(l, f, False) for l, f in extra] if ykind is None else []):
+        sc = purity.Scenario(kind, form, ykind)
+        case = {"operand": kind, "form": form, "second_operand": ykind, "operation": label}
+        agg.states += 1
+        try:
+            r = fn(sc)
+            raised = None
+        except AliasError as e:
+            r, raised = None, e
+        except Exception:
+            r, raised = None, "other"
+        objs = list(sc.objects.values())
+        if raised is not None and raised != "other":
+            # the operation itself was refused: is there a second live owner of x's storage?
+            vs = live_vectors(objs)
+            tgt = sc.x if (purity.is_vec(sc.x) and not is_table(sc.x) and not purity.is_row(sc.x)) else None
+            if tgt is not None and not any(o is not tgt and o._underlying is tgt._underlying for o in vs):
+                agg.violation(V("catalogue." + form + "." + purity._site(label), "spurious-AliasError", case, "performed", "AliasError"))
+            continue
+        keep = r
+        results = live_vectors(r if isinstance(r, (list, tuple)) else [r])
+        vs = live_vectors(objs) + results
+        okk = True
+        for tgt in vs:
+            if judge_write("catalogue." + form + "." + purity._site(label), dict(case, written="an operand / relative / result column"), tgt, vs) is False:
+                okk = False
+                break
+        if not okk:
+            continue
+        # brand-new vectors of the lengths in play: with recycled identities they receive the identities of whatever the operation freed
+        fresh = []
+        for n in sorted({len(o._underlying) for o in vs if len(o._underlying)} | {1, 2, 3}):
+            for rep in range(4):
+                w = Vector([1000 + rep + i for i in range(n)])
+                fresh.append(w)
+                if judge_write("catalogue." + form + "." + purity._site(label), dict(case, written=f"a brand-new vector of length {n} created afterwards"), w, vs + fresh) is False:
+                    okk = False
+                    break
+            if not okk:
+                break
+        del keep
+    return agg
+
+
 def check(ctx):
     agg = Agg()
     depth = ctx.pick(6, 7)
@@ -397,6 +488,10 @@ def check(ctx):
     agg.notes["frontier_sizes"] = {"empty-world": sizes_a, "two-and-three-sharers": agg.notes.get("frontier_sizes")}
     agg.notes["bound"] = (f"histories <= {depth} events from the empty world and <= {depth_b} events from the worlds with two / three vectors over one "
                           f"caller tuple, <= {dev} identity-reuse deviation(s)")
+    from mc import purity
+    cunits = [("cat", u[1], u[2], u[3]) for u in purity.plan(()) if u[1] not in ("acc", "acc?")]
+    for p in core.pmap(unit_catalogue, cunits):
+        agg.merge(p)
     agg.notes["deviation_bound"] = dev
     agg.sample({"events": ["tuple", "V_tup", "V_list", "copy", "T_dict", "t_setattr_list", "w_int", "drop", "collect", "...+alloc choices"]})
     return agg
@@ -413,6 +508,8 @@ def coverage_goals(ctx, agg):
 
 def replay(rec):
     case = rec.get("case") or {}
+    if "operation" in case and "operand" in case:
+        return set(unit_catalogue(("cat", case["operand"], case["form"], case.get("second_operand"))).viol)
     if "history" not in case:
         return None
     hist = tuple(tuple(tuple(x) if isinstance(x, list) else x for x in e) for e in case["history"])
